@@ -74,17 +74,17 @@ PROPS = {
              assumptions=COMMON_ASSUME + ["heights above those listed in coverage.explanation are covered by the general lemmas plus label-mode runs only (C01_partial)"]),
  "C02": dict(tie=tie("XMSS_KEY", extra=["xmss_XMSSFastGenKeyPair"]), assumptions=COMMON_ASSUME),
  "C03": dict(tie=tie("DIL_SIGN", "DIL_VERIFY", "DIL_PACK", "DIL_VEC", "DIL_POLY", "DIL_SAMPLE"), assumptions=COMMON_ASSUME + ["termination of the XOF-driven rejection loop is not provable; theorems are of the form 'if sign returns then …'"]),
- "C04": dict(tie=tie("XMSS_VERIFY", "XMSS_HASH", "XMSS_WOTS", "DESC"), assumptions=COMMON_ASSUME + ["that a flipped bit is rejected is a collision-resistance statement; it is covered by exhaustive single-bit-flip runs on the real code (tests, labelled as such)"]),
- "C05": dict(tie=tie("DIL_VERIFY", "DIL_PACK", "DIL_POLY", "DIL_VEC", "DIL_SAMPLE"), allow_bv_decide=True, assumptions=COMMON_ASSUME),
- "C06": dict(tie=tie("XMSS_HASH", "XMSS_WOTS", "XMSS_BDS", "XMSS_KEY", "XMSS_VERIFY"), thorough_modules=["C01Thorough"], timeout={"quick": 1500, "thorough": 7200}, assumptions=COMMON_ASSUME),
- "C07": dict(tie=tie("DIL_SIGN", "DIL_SAMPLE", "DIL_VEC", "DIL_POLY", "DIL_PACK", "DIL_SCALAR"), assumptions=COMMON_ASSUME),
+ "C04": dict(oracle_ops=["x.verify"], tie=tie("XMSS_VERIFY", "XMSS_HASH", "XMSS_WOTS", "DESC"), assumptions=COMMON_ASSUME + ["that a flipped bit is rejected is a collision-resistance statement; it is covered by exhaustive single-bit-flip runs on the real code (tests, labelled as such)"]),
+ "C05": dict(oracle_ops=["dl.verify", "dl.open", "dl.unpacksig"], tie=tie("DIL_VERIFY", "DIL_PACK", "DIL_POLY", "DIL_VEC", "DIL_SAMPLE"), allow_bv_decide=True, assumptions=COMMON_ASSUME),
+ "C06": dict(oracle_ops=["xs.pk", "xs.sign", "x.verify"], tie=tie("XMSS_HASH", "XMSS_WOTS", "XMSS_BDS", "XMSS_KEY", "XMSS_VERIFY"), thorough_modules=["C01Thorough"], timeout={"quick": 1500, "thorough": 7200}, assumptions=COMMON_ASSUME),
+ "C07": dict(oracle_ops=["dl.keypair", "dl.signsk", "dl.sign", "dl.new", "dl.rejuniform", "dl.rejeta", "dl.uniform", "dl.eta", "dl.gamma1", "dl.challenge"], tie=tie("DIL_SIGN", "DIL_SAMPLE", "DIL_VEC", "DIL_POLY", "DIL_PACK", "DIL_SCALAR"), assumptions=COMMON_ASSUME),
  "C08": dict(tie=tie("XMSS_KEY", "XMSS_BDS"), timeout={"quick": 1500, "thorough": 7200}, assumptions=COMMON_ASSUME),
  "C09": dict(tie=tie("DESC", "XMSS_KEY", "DIL_CTOR", "MNEMONIC"), assumptions=COMMON_ASSUME),
  "C10": dict(tie=tie("MNEMONIC"), assumptions=COMMON_ASSUME + ["strings.Split and Go map semantics are modelled (split on the single byte 0x20; later duplicate wins)"]),
- "C11": dict(tie=tie("ADDR", "DESC"), assumptions=COMMON_ASSUME + ["host byte order is little-endian"]),
+ "C11": dict(oracle_ops=["a.xmss", "a.xmssvalid", "a.legacy", "a.legacyvalid", "a.dil", "a.dilvalid", "d.new", "d.frombytes"], tie=tie("ADDR", "DESC"), assumptions=COMMON_ASSUME + ["host byte order is little-endian"]),
  "C12": dict(tie=tie("DIL_POLY", "DIL_SCALAR"), allow_bv_decide=True, assumptions=COMMON_ASSUME),
  "C13": dict(tie=tie("DIL_PACK"), allow_bv_decide=True, assumptions=COMMON_ASSUME + ["bv_decide (CaDiCaL + verified LRAT checker, native evaluation) is accepted for the bit-lane identities only; its axioms are listed under coverage.axioms_by_theorem"]),
  "C14": dict(tie=tie("XMSS_VERIFY", "ADDR", "DESC", "MNEMONIC", "DIL_VERIFY", extra=["dilithium_unpackSig"]), assumptions=COMMON_ASSUME + ["'no Go runtime.Error' and 'inputs unmodified' are runtime facts: the model shows every access it makes is in range, the harness checks panic types and input buffers on every malformed call"]),
  "C15": dict(tie=[], race=True, assumptions=COMMON_ASSUME + ["Go memory model, race-freedom of x/crypto/sha3, hex, fmt on distinct objects are not modelled (partial)"]),
- "C16": dict(tie=tie("JS"), assumptions=COMMON_ASSUME + ["GopherJS object glue is not modelled; only the pure string wrappers are"]),
+ "C16": dict(oracle_ops=["js.xverify", "js.xaddr", "js.xvalid", "js.dverify", "js.daddr", "js.dvalid"], tie=tie("JS"), assumptions=COMMON_ASSUME + ["GopherJS object glue is not modelled; only the pure string wrappers are"]),
 }
